@@ -17,6 +17,7 @@ func Verif_C17_numtree_small_fanout() {
 		max = 28
 	}
 	n := verifrt.Len("n", 0, max)
+	verifStreamOpen = verifrt.Choice("streamopen", 2) == 1
 	keys := verifIntKeys(n, false)
 	verifCheckNumTree(keys, maxChildren)
 }
